@@ -311,9 +311,16 @@ def evalArgs (env : Env F) : List (Expr F) → Except EvalErr (List (Res F))
     | _, .error e => .error e
 end
 
+/-- what the cells a result does not reach receive: `#N/A`, except that `ISERROR(...)` at the top of
+the formula returns a `TrueArray` (`functions/info.py`: Excel pads the argument with `#N/A` first, and
+`ISERROR(#N/A)` is `TRUE`) -/
+def fillOf : Expr F → Val F
+  | .call f _ => if f = "ISERROR" then .bool true else .err .na
+  | _ => .err .na
+
 /-- what a formula cell of `R × C` cells stores: the function node's `replace_empty` filter, then
 the fit of `Ranges.set_value` -/
-def cellResult (R C : Nat) (v : Res F) : Arr (Val F) :=
-  fit (.err .na) R C (blankTo (.num Num.zero) v.toArr)
+def cellResult (fill : Val F) (R C : Nat) (v : Res F) : Arr (Val F) :=
+  fit fill R C (blankTo (.num Num.zero) v.toArr)
 
 end XL
